@@ -465,18 +465,81 @@ def _safe_line(s, first=False, ver=False, stab=False):
     return s
 
 
-_line_text = st.one_of(
-    st.lists(st.sampled_from(WORDS), min_size=1, max_size=7).map(' '.join),
-    st.lists(st.sampled_from(WORDS), min_size=1, max_size=3).map(' '.join),
-    st.text(alphabet=_ALPHA, min_size=1, max_size=24))
 
+class DNA(object):
+    """Deterministic reader over the bytes drawn by Hypothesis (one cheap draw
+    per case; structured strategies cost 10-20 ms per block on this VM). Every
+    decoder below maps byte 0 to the simplest choice so that Hypothesis'
+    byte-wise shrinking simplifies the block."""
+
+    def __init__(self, data):
+        self.b = data if len(data) else b'\0'
+        self.i = 0
+
+    def u8(self):
+        v = self.b[self.i % len(self.b)]
+        self.i += 1
+        return v
+
+    def below(self, n):
+        return self.u8() % n
+
+    def pick(self, seq):
+        return seq[self.u8() % len(seq)]
+
+    def chance(self, num, den=8):
+        """true with probability num/den; byte 0 gives False"""
+        return (self.u8() % den) >= den - num
+
+
+DNA_SIZE = 640
+dna = st.binary(min_size=DNA_SIZE, max_size=DNA_SIZE)
+
+_CNAMES = ['foo', 'Gtk', 'GtkWidget', 'regress_test_obj', 'A', 'x9', '_priv', 'Fooé', 'MAX_VALUE', 'G']
+_DNAMES = ['bar', 'some-prop', 'notify', 'test_signal', 'a-b-c', 'B', 'x-1', 'é1', 'user_data', 'n']
 _name_alpha = 'abcdefghijklmnopqrstuvwxyzABCDEFGHIJKLMNOPQRSTUVWXYZ0123456789_'
-_cname = st.one_of(
-    st.sampled_from(['foo', 'Gtk', 'GtkWidget', 'regress_test_obj', 'A', 'x9', '_priv', 'Fooé', 'MAX_VALUE', 'G']),
-    st.text(alphabet=_name_alpha, min_size=1, max_size=10))
-_dname = st.one_of(
-    st.sampled_from(['bar', 'some-prop', 'notify', 'test_signal', 'a-b-c', 'B', 'x-1', 'é1']),
-    st.text(alphabet=_name_alpha + '-', min_size=1, max_size=10).map(lambda s: (s.rstrip('-') or 'p')))
+_INDENTS = [0, 0, 0, 1, 2, 4, 7, 0]
+
+
+def _rand_name(d, dash):
+    alpha = _name_alpha + ('-' if dash else '')
+    s = ''.join(alpha[d.below(len(alpha))] for _ in range(1 + d.below(10)))
+    return s.rstrip('-') or 'p'
+
+
+def _cname(d):
+    return _rand_name(d, False) if d.chance(3) else d.pick(_CNAMES)
+
+
+def _dname(d):
+    return _rand_name(d, True) if d.chance(3) else d.pick(_DNAMES)
+
+
+def _line_text(d):
+    k = d.below(4)
+    if k == 3:
+        return ''.join(_ALPHA[d.below(len(_ALPHA))] for _ in range(1 + d.below(24)))
+    return ' '.join(d.pick(WORDS) for _ in range(1 + d.below(3 if k == 2 else 7)))
+
+
+def _desc_lines(d, blanks, maxn=7, **kw):
+    """0..maxn description lines; None is an empty line (paragraph break)"""
+    n = [0, 1, 1, 2, 3, 5, maxn, 1][d.below(8)]
+    out = []
+    for _ in range(n):
+        if blanks and out and out[-1] is not None and d.chance(2):
+            out.append(None)
+            continue
+        out.append([d.pick(_INDENTS), _safe_line(_line_text(d), first=not out, **kw)])
+    while out and out[-1] is None:
+        out.pop()
+    return out
+
+
+def _picks(d):
+    n = [0, 0, 1, 1, 2, 2, 3, 5][d.below(8)]
+    return [[d.u8(), d.below(10), d.u8(), d.u8(), d.u8()] for _ in range(n)]
+
 
 FORMS = ('symbol', 'property', 'signal', 'field', 'section', 'action')
 
@@ -496,12 +559,13 @@ def ident_text(idm):
 
 
 def _build_anns(part, picks, mode):
-    """picks: list of [selector, t1, t2, t3, t4] integers."""
+    """picks: list of [selector, kind, t1, t2, t3] integers."""
     out = []
     seen = set()
     for sel, kind, t1, t2, t3 in picks:
         tk = [TOKENS[t % len(TOKENS)] for t in (t1, t2, t3)]
-        if mode == 'wf' or kind < 5:
+        wf = mode == 'wf' or kind < 5
+        if wf:
             tab = _WF[part]
             name, opts = tab[sel % len(tab)]
             if name in DICT_ANNS:
@@ -540,7 +604,7 @@ def _build_anns(part, picks, mode):
             opts = [tk[j] if (t2 + j) % 4 else VALUES[(t1 + j) % len(VALUES)] for j in range(n)]
         if name in seen:
             continue
-        if mode == 'wf' or kind < 5:
+        if wf:
             key = (name, opts[0]) if name == 'not' and opts else None
             bad = False
             for (cn, co), others in _CONFLICTS.items():
@@ -555,78 +619,58 @@ def _build_anns(part, picks, mode):
     return out
 
 
-_pick = st.tuples(st.integers(0, 63), st.integers(0, 9), st.integers(0, 255), st.integers(0, 255),
-                  st.integers(0, 255)).map(list)
-_picks = st.one_of(st.just([]), st.lists(_pick, max_size=2), st.lists(_pick, min_size=1, max_size=5))
-
-_desc_lines = st.lists(st.one_of(st.tuples(st.sampled_from([0, 0, 0, 1, 2, 4, 7]), _line_text).map(list),
-                                 st.tuples(st.sampled_from([0, 0, 0, 1, 2, 4, 7]), _line_text).map(list),
-                                 st.tuples(st.sampled_from([0, 0, 0, 1, 2, 4, 7]), _line_text).map(list),
-                                 st.none()), max_size=7)
-
-
-def _fix_desc(lines, blanks, **kw):
-    """drop blank lines where the grammar has none, sanitise the text"""
-    out = []
-    for l in lines:
-        if l is None:
-            if blanks and out and out[-1] is not None:
-                out.append(None)
-            continue
-        out.append([l[0], _safe_line(l[1], first=not out, **kw)])
-    while out and out[-1] is None:
-        out.pop()
-    return out
-
-
-@st.composite
-def models(draw, mode='wf'):
-    """A block model (JSON-able). mode 'wf': every annotation is a documented,
-    valid use (no diagnostic may be produced); 'broad': additionally known
-    annotations in undocumented places/arities and unknown annotation names."""
-    form = draw(st.sampled_from(FORMS + ('symbol', 'symbol')))
-    a = draw(_cname)
+def gen_model(d, mode='wf'):
+    """A block model (JSON-able) decoded from DNA. mode 'wf': every annotation
+    is a documented, valid use (no diagnostic may be produced); 'broad':
+    additionally known annotations in undocumented places/arities and unknown
+    annotation names (warnings allowed, errors not)."""
+    form = d.pick(('symbol', 'symbol', 'property', 'signal', 'field', 'section', 'action', 'symbol'))
+    a = _cname(d)
     b = None
     if form == 'symbol':
-        if draw(st.integers(0, 5)) == 0:
-            a = draw(_dname)
+        if d.chance(1):
+            a = _dname(d)
         if a.startswith('SECTION'):
             a = 's' + a
     elif form == 'section':
-        a = draw(_dname)
+        a = _dname(d)
         if len(a) < 2:
             a += 'x'
     elif form == 'action':
-        b = '%s.%s' % (draw(_dname), draw(_dname))
+        b = '%s.%s' % (_dname(d), _dname(d))
     else:
-        b = draw(_dname)
+        b = _dname(d)
     m = {'id': {'form': form, 'a': a, 'b': b}, 'mode': mode}
-    m['anns'] = [] if form in ('section', 'action') else _build_anns('ident', draw(_picks), mode)
-    nparams = draw(st.sampled_from([0, 0, 1, 1, 2, 3, 4, 6]))
+    m['anns'] = [] if form in ('section', 'action') else _build_anns('ident', _picks(d), mode)
+    nparams = [0, 1, 0, 1, 2, 3, 4, 6][d.below(8)]
     params, names = [], set()
     for i in range(nparams):
-        n = draw(_dname) if draw(st.integers(0, 7)) else '...'
+        n = '...' if d.chance(1) else _dname(d)
         if n.lower() == 'returns' or n == 'Varargs' or n in names:
             n = 'p%d' % i
         names.add(n)
-        params.append({'name': n, 'anns': _build_anns('param', draw(_picks), mode),
-                       'desc': _fix_desc(draw(_desc_lines), False)})
+        params.append({'name': n, 'anns': _build_anns('param', _picks(d), mode),
+                       'desc': _desc_lines(d, False, 4)})
     m['params'] = params
-    m['desc'] = _fix_desc(draw(_desc_lines) + draw(_desc_lines), True) if draw(st.integers(0, 3)) else []
+    m['desc'] = _desc_lines(d, True, 12) if d.chance(6) else []
     tags = []
-    for t in draw(st.lists(st.sampled_from(['returns', 'since', 'deprecated', 'stability']), max_size=4, unique=True)):
+    ntags = [0, 1, 1, 2, 0, 3, 4, 1][d.below(8)]
+    for _ in range(ntags):
+        t = d.pick(('returns', 'since', 'deprecated', 'stability'))
+        if any(x['name'] == t for x in tags):
+            continue
         tag = {'name': t, 'anns': [], 'value': None}
         if t == 'returns':
-            tag['anns'] = _build_anns('ret', draw(_picks), mode)
-            tag['desc'] = _fix_desc(draw(_desc_lines), True)
+            tag['anns'] = _build_anns('ret', _picks(d), mode)
+            tag['desc'] = _desc_lines(d, True)
         elif t == 'stability':
-            if draw(st.integers(0, 3)):
-                tag['value'] = draw(st.sampled_from(['Stable', 'Unstable', 'Private', 'Internal']))
-            tag['desc'] = _fix_desc(draw(_desc_lines), True, stab=tag['value'] is None)
+            if d.chance(6):
+                tag['value'] = d.pick(('Stable', 'Unstable', 'Private', 'Internal'))
+            tag['desc'] = _desc_lines(d, True, stab=tag['value'] is None)
         else:
-            if draw(st.integers(0, 3)):
-                tag['value'] = draw(st.sampled_from(['2.0', '0.6', '3', '1.2.3', '2.30.', '10', '.5']))
-            tag['desc'] = _fix_desc(draw(_desc_lines), True, ver=tag['value'] is None)
+            if d.chance(6):
+                tag['value'] = d.pick(('2.0', '0.6', '3', '1.2.3', '2.30.', '10', '.5'))
+            tag['desc'] = _desc_lines(d, True, ver=tag['value'] is None)
         tags.append(tag)
     m['tags'] = tags
     return m
@@ -667,10 +711,14 @@ def expected_tree(m):
 # layouts and rendering
 # --------------------------------------------------------------------------
 NK = 14
-layouts = st.fixed_dictionaries({
-    'k': st.lists(st.integers(0, 7), min_size=NK, max_size=NK),
-    'r': st.lists(st.integers(0, 23), min_size=1, max_size=12),
-})
+
+
+def gen_layout(d):
+    """A layout: 'k' fixed knobs, 'r' a stream consumed cyclically for the
+    per-line / per-annotation decisions. All zeros is the canonical layout."""
+    return {'k': [d.below(8) for _ in range(NK)], 'r': [d.below(24) for _ in range(1 + d.below(12))]}
+
+
 CANONICAL = {'k': [0] * NK, 'r': [0]}
 _PRE = [' ', '', '  ', '\t', '    ', ' \t', '   ', '\t\t']
 _NL = ['\n', '\r\n', '\n', '\r\n', '\r', 'mix', '\n', '\r\n']
@@ -698,8 +746,10 @@ class _Stream(object):
 
 def render(m, lay):
     """Render model m under layout lay. Returns (text, info): info['lines'] is
-    a list parallel to the physical lines of text with (kind, part) pairs,
-    kinds: start id idc param paramc pdesc blank desc tag tagc tdesc end;
+    a list parallel to the physical lines of text with (kind, part, nb, n)
+    tuples, kinds: start id idc param paramc pdesc blank desc tag tagc tdesc end;
+    part is the parameter/tag index, nb/n the number of annotations of that part
+    on earlier lines / on this line;
     info['multiline'] tells whether an annotation field was continued."""
     K, nxt = lay['k'], _Stream(lay['r'])
     pre = _PRE[K[0]]
@@ -733,18 +783,21 @@ def render(m, lay):
         have = False
         ck = kind + 'c'
         curkind = kind
+        nb = non = 0               # annotations on earlier lines of this part / on the current line
         for a in anns:
             r = nxt()
             if cont and r % 8 < cont:
-                body.append((cur, curkind, part))
+                body.append((cur, curkind, part, nb, non))
+                nb, non = nb + non, 0
                 curkind = ck
                 cur = ' ' * (r % 5) + ann_text(a)
                 multiline[0] = True
             else:
                 cur += (gap() if have else sp()) + ann_text(a)
+            non += 1
             have = True
         if is_ident:
-            body.append((cur, curkind, part))
+            body.append((cur, curkind, part, nb, non))
             return
         if value is not None:
             cur += sp() + value
@@ -754,56 +807,56 @@ def render(m, lay):
             if anns or value is not None:
                 cur += ':'
             if desc_next and r % 8 < desc_next:
-                body.append((cur, curkind, part))
+                body.append((cur, curkind, part, nb, non))
                 cur = None
             else:
                 cur += sp() + lines[0][1]
-                body.append((cur, curkind, part))
+                body.append((cur, curkind, part, nb, non))
                 lines = lines[1:]
             dk = kind[0] + 'desc'
             for l in lines:
                 if l is None:
-                    body.append(('', dk, part))
+                    body.append(('', dk, part, 0, 0))
                 else:
                     ind = l[0]
                     if cur is None and ind == 0 and nxt() % 2:
                         ind = 2
                     cur = ''
-                    body.append((' ' * ind + l[1], dk, part))
+                    body.append((' ' * ind + l[1], dk, part, 0, 0))
         else:
             if (anns or value is not None) and empty_colon:
                 cur += ':'
-            body.append((cur, curkind, part))
+            body.append((cur, curkind, part, nb, non))
 
     idt = ident_text(m['id'])
     if m['id']['form'] in ('section', 'action'):
-        body.append((idt + (':' if m['id']['form'] == 'action' and id_colon else ''), 'id', None))
+        body.append((idt + (':' if m['id']['form'] == 'action' and id_colon else ''), 'id', None, 0, 0))
     elif m['anns']:
         emit(idt + ':', m['anns'], [], 'id', None, is_ident=True)
     else:
-        body.append((idt + (':' if id_colon else ''), 'id', None))
+        body.append((idt + (':' if id_colon else ''), 'id', None, 0, 0))
     for i, p in enumerate(m['params']):
         emit('@%s:' % p['name'], p['anns'], p['desc'], 'param', i)
     if m['desc']:
-        body.append(('', 'blank', None))
+        body.append(('', 'blank', None, 0, 0))
         for l in m['desc']:
-            body.append(('' if l is None else ' ' * l[0] + l[1], 'desc', None))
-    if m['tags'] and (blank_tags or (m['desc'] and m['desc'][-1] is None)):
-        body.append(('', 'blank', None))
+            body.append(('' if l is None else ' ' * l[0] + l[1], 'desc', None, 0, 0))
+    if m['tags'] and blank_tags:
+        body.append(('', 'blank', None, 0, 0))
     for i, t in enumerate(m['tags']):
         if i and blank_between:
-            body.append(('', 'blank', None))
+            body.append(('', 'blank', None, 0, 0))
         v = t['value']
         if v is not None and t['name'] == 'stability':
             v = [v, v, v.lower(), v.upper(), v, v, v.lower(), v][stab_case]
         emit(t['name'].capitalize() + ':', t['anns'], t['desc'], 'tag', i, value=v)
 
     out = []
-    kinds = [('start', None)]
+    kinds = [('start', None, 0, 0)]
     star_pre = pre
     start_pre = pre[:-1] if pre.endswith(' ') else pre
     out.append(start_pre + '/**' + (_TRAIL[nxt() % 8] if trail else ''))
-    for text, kind, part in body:
+    for text, kind, part, nb, non in body:
         p = star_pre
         if jitter:
             p = _PRE[nxt() % 8]
@@ -818,9 +871,9 @@ def render(m, lay):
             if trail:
                 line += _TRAIL[nxt() % 8]
         out.append(line)
-        kinds.append((kind, part))
+        kinds.append((kind, part, nb, non))
     out.append((star_pre if not jitter else _PRE[nxt() % 8]) + end + (_TRAIL[nxt() % 8] if trail else ''))
-    kinds.append(('end', None))
+    kinds.append(('end', None, 0, 0))
     if nl == 'mix':
         text = ''
         for i, l in enumerate(out[:-1]):
